@@ -32,8 +32,17 @@ func serviceLoops(f *ssa.Function) []svcLoop {
 		}
 		l := svcLoop{Header: h, Blocks: map[*ssa.BasicBlock]bool{}}
 		for _, b := range f.Blocks {
-			if (b == h || h.Dominates(b)) && eng.BlockReaches(b, h) {
+			if b == h {
 				l.Blocks[b] = true
+				continue
+			}
+			if !h.Dominates(b) {
+				continue
+			}
+			for _, p := range h.Preds {
+				if (p == h || h.Dominates(p)) && reachesAvoiding(b, p, h) {
+					l.Blocks[b] = true
+				}
 			}
 		}
 		blocking := false
